@@ -633,6 +633,7 @@ func ruleFE1() Rule {
 			if f == nil || split == nil {
 				return
 			}
+			emptyFn := c.mustFn(rr, "interp.(*field).empty")
 			n := 0
 			c.regionNodes(f, func(g *core.Func, x ast.Node) bool {
 				rs, ok := x.(*ast.RangeStmt)
@@ -660,7 +661,10 @@ func ruleFE1() Rule {
 							continue
 						}
 						se, ok := call.Fun.(*ast.SelectorExpr)
-						if !ok || se.Sel.Name != "empty" {
+						if !ok {
+							continue
+						}
+						if fo := core.StaticCallee(hi, call); fo == nil || emptyFn == nil || c.P.FuncOf(fo) != emptyFn {
 							continue
 						}
 						if id, ok := ast.Unparen(se.X).(*ast.Ident); ok && hi.Uses[id] == obj {
